@@ -44,8 +44,28 @@ def compare(case, impl, model):
 
 def monitor(case, obs):
     """the statement of C13 as a closed form, for flat containers of text items (independent of the Lean model)"""
-    if case.get("_tag") != "flat": return None
     from harness.impl.render import build
+    if case.get("_tag") != "flat":
+        # nested / forced-width containers: items never overlap => every non-blank character of every item's own rendering and of every label is shown:
+        # the multiset of non-blank characters of the container equals the sum over its items (rendered at the width the container gives them) and labels
+        t = case["tree"]; o = obs[0]
+        if t[0] != "list" or "err" in o or t[2] == 0: return None
+        _, cm, k, cwf, sp, kp, items = t; w = case["ops"][0][1]
+        used = cwf if cwf is not None else int((w - (k - 1) * sp) / k)
+        import collections
+        exp = collections.Counter()
+        for i, it in enumerate(items):
+            lab = (kp[0] + str(i + kp[2]) + kp[1]) if kp else ""
+            exp.update(c for c in lab if not c.isspace())
+            x = build(it)
+            try: x.render(used - len(lab))
+            except Exception: return None
+            exp.update(c for l in x.get_lines() for c in l if not c.isspace())
+        got = collections.Counter(c for l in o["lines"] for c in l if not c.isspace())
+        if got != exp:
+            miss = exp - got
+            return "items overlap or are lost: %d non-blank characters of the items/labels are not shown (e.g. %r); lines %r" % (sum(miss.values()), list(miss)[:5], o["lines"][:4])
+        return None
     _, cm, k, _cw, sp, kp, items = case["tree"]; w = case["ops"][0][1]; n = len(items)
     o = obs[0]
     texts = [it[1] for it in items]
